@@ -1,17 +1,18 @@
 #!/usr/bin/env python3
-"""Usage: tools/seedrun.py <Cxx> <seed out dir (…/Cxx-out)> <scratch worktree>
+"""Usage: tools/seedrun.py <Cxx> <seed out dir (…/Cxx-out)> <scratch worktree> [id tag]
 For every sub-directory k of the out dir: confirm the seeded change independently
 (tools/seedconfirm.sh), run ./check Cxx against it in isolation (tools/seedeval.sh; quick, then
 thorough if quick misses it), and store it as /verif/seeded/Cxx-k/ with the outcome in meta.json."""
 import json, os, shutil, subprocess, sys, glob, re
 
 prop, out, wt = sys.argv[1], sys.argv[2], sys.argv[3]
+tag = sys.argv[4] if len(sys.argv) > 4 else ""  # e.g. "r2-" for the second round
 V = os.path.dirname(os.path.dirname(os.path.abspath(__file__)))
 for d in sorted(glob.glob(os.path.join(out, "*"))):
     if not os.path.isfile(os.path.join(d, "patch.diff")):
         continue
     k = os.path.basename(d)
-    sid = "%s-%s" % (prop, k)
+    sid = "%s-%s%s" % (prop, tag, k)
     conf = subprocess.run([os.path.join(V, "tools/seedconfirm.sh"), d, wt], capture_output=True, text=True)
     confirmed = conf.stdout.strip().startswith("CONFIRMED")
     print(sid, conf.stdout.strip().split("\n")[0])
